@@ -28,3 +28,10 @@ Fixpoint zrange (lo : Z) (n : nat) : list Z :=
 
 Fixpoint nrange (lo : nat) (n : nat) : list nat :=
   match n with O => [] | S n' => lo :: nrange (S lo) n' end.
+
+Fixpoint all2 {A B} (f : A -> B -> bool) (a : list A) (b : list B) : bool :=
+  match a, b with
+  | x :: a', y :: b' => f x y && all2 f a' b'
+  | [], [] => true
+  | _, _ => false
+  end.
